@@ -204,8 +204,6 @@ def step_check(pm: ProgramModel, ctx: Ctx, mb: ModelBuilder, fn: Any, rule: str)
                         bad_exact.setdefault(k, []).append(
                             f"relation {d}: children are in every configuration but are not added")
     ctx.analysed["C14:step-evaluations"] = n_steps
-    from .c19 import op_sequences
-    op_sequences(pm, ctx, ModelBuilder(pm), [pm.cls(n_) for n_ in ('FMCoreFeatures',) if pm.has_cls(n_)], "C14")
     ctx.floor(rule, "step evaluations", n_steps, 100)
     ctx.ok("C14-CLOSURE", "returns-result", loc(fn.unit.path, fn.node),
            f"the list `{R}` built by the loop is what the function returns")
